@@ -123,6 +123,12 @@ func coqEvents(events []ev) ([]string, string) {
 			out = append(out, fmt.Sprintf("EPurge %d", e.a))
 		case "env.timer":
 			out = append(out, fmt.Sprintf("ETimer %d", e.a))
+		case "env.outside":
+			out = append(out, fmt.Sprintf("EOutside %d %d", e.a, e.b))
+		case "outadd":
+			t(fmt.Sprintf("KOutAdd %d %s %s", e.a, b(e.f2), b(e.f3)))
+		case "phinv":
+			t("KPhInv")
 		case "fail.decision", "reactive.cache.lockerr":
 			if pending[e.gid] != nil {
 				problem = "nested failure sequence"
@@ -315,7 +321,10 @@ func Main(prop string) {
 		default:
 			run.Hist("events:>=400")
 		}
-		for _, k := range []string{"reactive.release.noop", "reactive.invalidate.noop", "reactive.cache.lockerr", "env.timer", "reactive.run.retry", "reactive.run.failed"} {
+		if c.DelayUs > 0 {
+			run.Hist("write-then-read-delay>0")
+		}
+		for _, k := range []string{"outadd", "reactive.invalidate.noop", "reactive.cache.lockerr", "env.timer", "reactive.run.retry", "reactive.run.failed"} {
 			if res.Kinds[k] > 0 {
 				run.Hist("saw:" + k)
 			}
